@@ -161,6 +161,9 @@ class Orchestrator:
                     f"Skipping strategy: {strategy.name} on CV-fold: "
                     f"{cv_fold} of dataset: {dataset.name}"
                 )
+                # existing results still belong to the registry of this run,
+                # otherwise a resumed run saves a master file that omits them
+                self.results._append_key(strategy.name, dataset.name)
                 continue
 
             # split data into training and test sets
